@@ -573,8 +573,8 @@ var ladderNames = []string{"x79 lists", "x57 lists", "H maps", "typed lists", "o
 
 func init() {
 	core.Register(&core.Prop{
-		ID: "C14", Level: "model_checking",
-		Rule:        "Exhaustive enumeration of hostile inputs against the real decoder (three type-map configurations: empty, knowing every class/list type of the corpus, hostile = names bound to types of the wrong kind). (1) Lazy reader exploration: the environment chooses each byte only when the decoder asks for it (or end of input): the full 256-byte alphabet to depth 2 (quick) / 3 (thorough) and a 58-byte tag-class alphabet (representatives of every tag range the grammar distinguishes) to depth 3-4 (quick) / 5 (thorough), through the streaming entry points of Decoder and Serializer. (2) One edit of a valid message (corpus: one message per zoo shape as written by the library plus reference renderings with variable lists, type back-references, hoisted definitions, long-form instances, chunked strings): every prefix, every single-byte deletion, every position x 256 replacement bytes, every position x 256 inserted bytes, through all five entry points (quick: subset of entries/configs). (3) Declared-length amplification: 14 productions carrying a length, count or index x declared value in {-2^31,-1,0,1,65535,2^20,2^31-1} x payload present in {none, one element, three, 1100 elements}. (4) Nesting ladders of five openers at depths 1..60000. Oracle: the call returns (a recovered panic is a violation labelled by its site; exceeding the reader step budget of 64+16 per input byte is a runaway; TotalAlloc growth above 8 MiB + 1 KiB per input byte is an allocation violation; a killed worker is attributed to the case in flight). Distinct by construction (distinct byte strings as read).",
+		ID: "C14", Level: "model_checking", StallS: 90,
+		Rule:        "Exhaustive enumeration of hostile inputs against the real decoder (three type-map configurations: empty, knowing every class/list type of the corpus, hostile = names bound to types of the wrong kind). (1) Lazy reader exploration: the environment chooses each byte only when the decoder asks for it (or end of input): the full 256-byte alphabet to depth 2 (quick) / 3 (thorough) and a 58-byte tag-class alphabet (representatives of every tag range the grammar distinguishes) to depth 3-4 (quick) / 5 (thorough), through the streaming entry points of Decoder and Serializer. (2) One edit of a valid message (corpus: one message per zoo shape as written by the library plus reference renderings with variable lists, type back-references, hoisted definitions, long-form instances, chunked strings): every prefix, every single-byte deletion, every position x 256 replacement bytes, every position x 256 inserted bytes, through all five entry points (quick: subset of entries/configs). (3) Declared-length amplification: 14 productions carrying a length, count or index x declared value in {-2^31,-1,0,1,65535,2^20,2^31-1} x payload present in {none, one element, three, 1100 elements}. (4) Nesting ladders of five openers at depths 1..60000. Oracle: the call returns (a call that has not returned after 90 s ends the worker and is attributed to the case in flight; a recovered panic is a violation labelled by its site; exceeding the reader step budget of 64+16 per input byte is a runaway; TotalAlloc growth above 8 MiB + 1 KiB per input byte is an allocation violation; a killed worker is attributed to the case in flight). Distinct by construction (distinct byte strings as read).",
 		Assumptions: []string{"resource bounds are deterministic proxies: reader-call budget and allocation allowance", "uniformly random 64 KiB strings of the property text are replaced by the enumerated families"},
 		Units: func(tier string) []core.Unit {
 			buildCorpus()
@@ -859,6 +859,49 @@ func init() {
 				}
 				c.Cover("bracket-names")
 			}})
+			// long lists with one element of a foreign kind, into numeric and string slices (any per-size code path
+			// of the conversion has to fail the same way a short list does)
+			us = append(us, core.Unit{Name: "long-lists-foreign-element", Cost: 100, Run: func(c *core.Ctx) {
+				str := func(s string) []byte { return append([]byte{byte(len(s))}, s...) }
+				tm := map[string]reflect.Type{"SlI64": reflect.TypeOf(zoo.SlI64{}), "SlI32": reflect.TypeOf(zoo.SlI32{}), "SlF64": reflect.TypeOf(zoo.SlF64{}), "SlStr": reflect.TypeOf(zoo.SlStr{}),
+					"[long": reflect.TypeOf([]int64{}), "[int": reflect.TypeOf([]int32{}), "[double": reflect.TypeOf([]float64{}), "[string": reflect.TypeOf([]string{})}
+				foreign := map[string][]byte{"a string": {0x01, 'x'}, "a double": {0x5d, 0x07}, "a map": {'H', 'Z'}, "a list": {0x78}, "true": {'T'}, "an int": {0x95}}
+				for _, dest := range []string{"SlI64", "SlI32", "SlF64", "SlStr"} {
+					for _, typed := range []string{"", "[long", "[int", "[double", "[string"} {
+						for _, n := range []int{100, 1025, 4095, 4096, 4097, 8200, 70000} {
+							for fk, fb := range foreign {
+								for _, at := range []int{0, n / 2, n - 1} {
+									if !c.Begin() {
+										continue
+									}
+									c.NontrivialN(1)
+									c.Res.States++
+									b := append(append(append([]byte{'C'}, str(dest)...), 0x91), str("l")...)
+									b = append(b, 0x60)
+									if typed == "" {
+										b = append(b, 0x58)
+									} else {
+										b = append(append(b, 'V'), str(typed)...)
+									}
+									b = append(b, be32(int32(n))...)
+									for i := 0; i < n; i++ {
+										if i == at {
+											b = append(b, fb...)
+										} else if dest == "SlStr" {
+											b = append(b, 0x01, 'e')
+										} else {
+											b = append(b, 0x90+byte(i%40))
+										}
+									}
+									desc := fmt.Sprintf("%s.l fed a list (type %q) of %d elements with %s at index %d (%d bytes)", dest, typed, n, fk, at, len(b))
+									c.Outcome(runHostile(c, 0, b, guard.NewReader(b), tm, desc, "long-lists-foreign-element", true))
+								}
+							}
+						}
+					}
+				}
+				c.Cover("long-lists-foreign-element")
+			}})
 			// fan-in: many fields / elements refer to one earlier container
 			us = append(us, core.Unit{Name: "fan-in", Cost: 100, Run: func(c *core.Ctx) {
 				str := func(s string) []byte { return append([]byte{byte(len(s))}, s...) }
@@ -959,7 +1002,7 @@ func init() {
 			return us
 		},
 		RequireCover: func(string) []string {
-			return []string{"lazy-full", "lazy-tags", "edit", "amplification", "ladder", "cycles", "dags", "name-flood", "bracket-names", "fan-in"}
+			return []string{"lazy-full", "lazy-tags", "edit", "amplification", "ladder", "cycles", "dags", "name-flood", "bracket-names", "fan-in", "long-lists-foreign-element"}
 		},
 	})
 }
